@@ -3,7 +3,7 @@ R-NOWRITE-ON-REJECT, concatenation agreement of the two-level containers, R-ITER
 iterators."""
 from core import Ctx, callee_tag, classify, describe, short, base_places, closure_sites
 from model import Catalogue, self_field_targets, constructed
-from expr import (trees, tree, show, facts_at, operand_tree, place_tree, lin, lin_eq, reach_strict,
+from expr import (infeasible, trees, tree, show, facts_at, operand_tree, place_tree, lin, lin_eq, reach_strict,
                   CMP_OPS)
 from r_append import two_level, fmt_facts
 from r_bound import norm_len, nlin
@@ -181,6 +181,10 @@ def r_panic_edges(F, R):
                 tag = callee_tag(ce)
                 if t["target"] is None:
                     n += 1
+                    if infeasible(ctx, bi):
+                        R.info("R-PANIC: %s: the panic at %s is unreachable (its branch condition contradicts "
+                               "a dominating branch on the same operands)" % (b.label(), where))
+                        continue
                     R.check("R-PANIC", b.label(), False, construct="diverging call %s" % tag[1],
                             where=where, detail="unexpected panic in an index-container write path")
                 elif tag[1] in ("unwrap", "expect"):
@@ -372,6 +376,7 @@ def r_concat(F, R, cat=None):
                     where=b.where(), detail="iterator fields: %s" % mapping)
             if ok and iter_adt:
                 check_iter_next(F, R, iter_adt, mapping, first, second)
+                check_iter_others(F, R, iter_adt, mapping, first, second)
 
 
 def call_len_of(b, fld, _):
@@ -480,6 +485,121 @@ def check_iter_next(F, R, iter_adt, mapping, first, second):
     R.check("R-ITER", b.label(), ok, construct="next() yields %s then %s" % (first, second),
             where=b.where(), detail="; ".join(why) or "first consulted always, second only when the first is exhausted"
             + ("; forbidden adaptors %s" % bad if bad else ""))
+
+
+def check_iter_others(F, R, iter_adt, mapping, first, second):
+    """every other method of the concatenating iterator (nth, fold, last, ... overrides; inherent
+    helpers) consumes from the second part only once the first is known to be exhausted.  Decided
+    per consuming call on the second part: accepted when a dominating fact says `first.next()` was
+    None (or a measure of the first part is 0); `undecided` when something on the way there
+    consumed from / wrote to the first part (its state is then unknown to this rule); a violation
+    when the first part is provably untouched and not known to be exhausted."""
+    from core import all_ctxs
+    from r_bracket import walk
+    ffield = [k for k, v in mapping.items() if v == first][0]
+    sfield = [k for k, v in mapping.items() if v == second][0]
+    for b in F.bodies.values():
+        if b.self_adt != iter_adt or b.kind != "AssocFn" or b.in_tests() or b.derived:
+            continue
+        if b.name in ("next", "size_hint") and b.trait == "Iterator":
+            continue
+        if b.trait not in (None, "Iterator", "DoubleEndedIterator", "ExactSizeIterator", "FusedIterator"):
+            continue
+        ctxs = all_ctxs(F, b)
+        top = ctxs[0]
+
+        def part_of(ctx, op):
+            """'first' / 'second' / None: which part an operand is rooted in, when handed over
+            mutably or by value"""
+            if op["k"] not in ("move", "copy"):
+                return None
+            ty = ctx.body.locals[op["place"]["l"]]["ty"]
+            byval = op["k"] == "move" and not ty.get("ref") and not ty["s"].startswith("&") and \
+                ty.get("k") not in ("uint", "int", "bool", "char", "float")  # a copied number is a read
+            if not (ty.get("mut") or byval):
+                return None
+            for o in ctx.org.operand(op):
+                for (c2, (r, pth)) in base_places(ctx, o):
+                    if c2 is top and r == ("arg", 1) and pth[:1] == ("f:" + ffield,):
+                        return "first"
+                    if c2 is top and r == ("arg", 1) and pth[:1] == ("f:" + sfield,):
+                        return "second"
+            return None
+
+        touches = []  # (ctx, bb) of calls / stores that may change the first part
+        sites = []
+        for ctx in ctxs:
+            for (bi, t) in ctx.body.calls():
+                tag = callee_tag(t.get("callee"))
+                if classify(t.get("callee")) in ("measure", "read") or tag[1] in ("size_hint", "len", "clone"):
+                    continue
+                parts = {part_of(ctx, a) for a in t["args"]}
+                if "first" in parts:
+                    touches.append((ctx, bi))
+                if "second" in parts:
+                    sites.append((ctx, bi, t))
+            for bi in ctx.body.live_blocks():
+                for st in ctx.body.blocks[bi]["stmts"]:
+                    if st["k"] == "assign" and st["place"]["p"]:
+                        for o in ctx.org.place(st["place"]):
+                            for (c2, (r, pth)) in base_places(ctx, o):
+                                if c2 is top and r == ("arg", 1) and pth[:1] == ("f:" + ffield,):
+                                    touches.append((ctx, bi))
+        if not sites:
+            continue
+        R.saw(b)
+        fplace = ("place", b.key, ("arg", 1), ("f:" + ffield,))
+
+        def chain(ctx, bi):
+            """[(ctx, bb)] of the site and of the points in the enclosing bodies it runs under"""
+            out = [(ctx, bi)]
+            while ctx.parent is not None:
+                bi = ctx.consumer[0] if ctx.consumer else ctx.site_bb
+                ctx = ctx.parent
+                out.append((ctx, bi))
+            return out
+
+        for (ctx, bi, t) in sites:
+            exhausted = False
+            for f in facts_at(ctx, bi):
+                x = f[1]
+                if f[0] == "variant" and x[0] == "call" and x[1] == ("Iterator", "next") and x[2] and x[2][0] == fplace:
+                    if f[2] == "0" or (isinstance(f[2], tuple) and f[2][0] == "not" and "1" in f[2][1]):
+                        exhausted = True
+                if f[0] in ("Eq", "Le") and (f[2] == ("const", "0") or f[1] == ("const", "0")):
+                    other = f[1] if f[2] == ("const", "0") else f[2]
+                    if f[0] == "Eq" or f[2] == ("const", "0"):
+                        if any(nd[0] == "place" and nd[1:3] == fplace[1:3] and tuple(nd[3][:1]) == fplace[3]
+                               for nd in walk(other) if isinstance(nd, tuple) and nd):
+                            exhausted = True
+                if f[0] == "truthy" and f[2] is True and x[0] == "call" and x[1][1] == "is_empty" and \
+                        any(nd[0] == "place" and nd[1:3] == fplace[1:3] and tuple(nd[3][:1]) == fplace[3]
+                            for nd in walk(x) if isinstance(nd, tuple) and nd):
+                    exhausted = True
+            where = "%s:%s" % (b.file, t["line"])
+            cons = "%s consumed only after %s is exhausted" % (second, first)
+            if exhausted:
+                R.check("R-ITER", b.label(), True, construct=cons, where=where,
+                        detail="dominating fact: %s is exhausted" % first)
+                continue
+            touched = False
+            for (sc, sb) in chain(ctx, bi):
+                for (tc, tb) in touches:
+                    if tc is sc and (tb == sb and (tc, tb) != (ctx, bi) or sb in reach_strict(sc.body, tb)):
+                        touched = True
+                    # a touch inside a closure that runs before the site
+                    if tc is not sc:
+                        for (uc, ub) in chain(tc, tb)[1:]:
+                            if uc is sc and (ub == sb or sb in reach_strict(sc.body, ub)) and (tc, tb) != (ctx, bi):
+                                touched = True
+            if touched:
+                R.undecided_site("R-ITER", b.label(), "%s is consumed at %s after code that advances or rewrites %s; "
+                                 "whether %s is exhausted there is not decided" % (second, where, first, first))
+                continue
+            R.check("R-ITER", b.label(), False, construct=cons, where=where,
+                    detail="%s is advanced although nothing on the way there consumed %s and no dominating fact "
+                           "says %s is exhausted: elements of %s that were not yet yielded would come after "
+                           "elements of %s" % (second, first, first, first, second))
 
 
 def has_next_of(t, key, fld):
